@@ -77,10 +77,27 @@ func (c *ShipConnection) setState(newState model.ShipMessageExchangeState, err e
 			Error: err,
 		}
 		c.mux.Unlock()
+
+		// the connection was closed by another goroutine while this message is processed:
+		// its end has been reported, progress of its handshake must not follow
+		if c.isCloseReported() && !isHandshakeEndState(newState) {
+			return
+		}
+
 		c.infoProvider.HandleShipHandshakeStateUpdate(c.remoteSKI, state)
 		return
 	}
 	c.mux.Unlock()
+}
+
+// states that end a handshake without success
+func isHandshakeEndState(state model.ShipMessageExchangeState) bool {
+	switch state {
+	case model.SmeStateError, model.SmeHelloStateAbort, model.SmeHelloStateAbortDone,
+		model.SmeHelloStateRemoteAbortDone, model.SmeHelloStateRejected:
+		return true
+	}
+	return false
 }
 
 func (c *ShipConnection) getState() model.ShipMessageExchangeState {
@@ -290,6 +307,21 @@ func (c *ShipConnection) disableHandshakeTimer() {
 	c.handshakeTimerMux.Unlock()
 
 	c.stopHandshakeTimer()
+}
+
+// the end of the connection is about to be reported
+func (c *ShipConnection) setCloseReported() {
+	c.handshakeTimerMux.Lock()
+	c.closeReported = true
+	c.handshakeTimerMux.Unlock()
+}
+
+// reports if the end of the connection has been reported
+func (c *ShipConnection) isCloseReported() bool {
+	c.handshakeTimerMux.Lock()
+	defer c.handshakeTimerMux.Unlock()
+
+	return c.closeReported
 }
 
 // reports if CloseConnection was invoked
